@@ -39,4 +39,14 @@ PROPS = {
         "trusted": ["Rust str/char semantics as modelled (chars(), len(), is_ascii, is_ascii_control, to_ascii_uppercase, derived Ord/Eq on (array, length)); the private fields are read through the derived Debug output"],
         "assumptions": ["a Rust &str is modelled as a list of Unicode scalar values; SipHash (derived Hash) is not modelled, hashing is covered by injectivity of text -> struct"],
     },
+    "C01": {
+        "prop_files": ["props/C01.v"],
+        "extra_files": ["proofs/SrpBatch.v"],
+        "consts": ["n_le", "generator", "k_value", "xor_hash", "salt_length", "private_key_length", "session_key_length", "reconnect_challenge_data_length", "s_length", "public_key_length"],
+        "runner": "run_C01",
+        "byte_exact": False,
+        "rule": "complete logins through the public API with an injected tape (salt, b, a, challenge), credentials of every length 1..16 over the printable set with random case flips on the client side, export/re-import of the account record; classes forced by Rust-side search: S with 1 (thorough: 2) low-order zero bytes, S/A/B/v with a high-order zero byte, B < v (B - k*v negative); every value (v, B, A, M1, M2, K on both sides, challenge) compared with the Coq model; implementation-only oracle: tens of thousands of honest logins (all must authenticate with equal keys) plus directed sessions with S = 0 mod 256.",
+        "trusted": [SHA, "num-bigint from_bytes_le / to_bytes_le / modpow / * + - % as modelled in model/Bigint.v", "primality certificate chain for N checked by vm_compute (primes/PockZ.v; MathComp ssreflect used for Pocklington's criterion)"],
+        "assumptions": ["the documented panic of into_proof (server's own B = 0 mod N) is excluded by hypothesis", "usernames/passwords enter the model as their normalised text; normalisation itself is C13"],
+    },
 }
